@@ -22,6 +22,9 @@ type gen struct {
 	sc   *Scenario
 	txN  uint64 // number of transactions created by setup on l1 (ids are 1..txN)
 	keys map[string]bool
+	// delKeys: (transaction id, setup op id) pairs whose metadata key "d.k<setup op id>" exists and has not been
+	// handed to a delete yet (bulk elements that must succeed)
+	delKeys [][2]string
 }
 
 func (g *gen) id(prefix string) string {
